@@ -264,6 +264,50 @@ pub fn check_interior(sh: &mut Shard, a: &IG, lat: &Lat, verbose: bool) {
     sh.sample(|| json!({"kind": "interior_point", "geometry": format!("{:?}", g), "result": format!("{:?}", got)}));
 }
 
+/// A collection with members of DIFFERENT dimensions (points, lines, areas; valid shapes, anywhere): its own dimension is
+/// the highest one present, so the answer has to lie on a member of that dimension (for areal ones: strictly inside it)
+pub fn check_interior_mixed(sh: &mut Shard, members: &[IG], lat: &Lat, verbose: bool) {
+    use geo::{Geometry, GeometryCollection};
+    let top = members.iter().map(|m| m.dim()).max().unwrap_or(-1);
+    if top < 0 {
+        return;
+    }
+    let gc = GeometryCollection::new_from(members.iter().map(|m| m.to_geo(lat)).collect::<Vec<Geometry<f64>>>());
+    let det = |exp: &str, got: String| json!({"property": "C12", "check": "interior_point.highest_dimension", "kind": "mixed_collection", "members": members.iter().map(|m| m.json()).collect::<Vec<_>>(), "lat": lat.json(), "expected": exp, "got": got, "geo": format!("{:?}", gc)});
+    sh.eval(1);
+    let got = call(|| gc.interior_point());
+    if verbose {
+        println!("interior_point of {:?}: {:?} (highest dimension {top})", gc, got);
+    }
+    match got {
+        Err(p) => sh.violation("interior_point.panic|GeometryCollection(mixed dimensions)|-", det("no panic", format!("panic: {p} at {}", last_panic_loc()))),
+        Ok(None) => sh.violation("interior_point.none_only_for_empty|GeometryCollection(mixed dimensions)|-", det("Some(point)", "None".into())),
+        Ok(Some(c)) => {
+            let Some(cq) = lat.inv(c.0) else {
+                sh.inconclusive("interior point not exactly representable / oracle");
+                return;
+            };
+            let mut best: Option<Loc> = None;
+            for m in members.iter().filter(|m| m.dim() == top) {
+                match guard(|| m.to_model().loc(cq)) {
+                    Ok(Loc::I) => best = Some(Loc::I),
+                    Ok(Loc::B) if best != Some(Loc::I) => best = Some(Loc::B),
+                    Ok(_) => {}
+                    Err(_) => {
+                        sh.inconclusive("interior point not exactly representable / oracle");
+                        return;
+                    }
+                }
+            }
+            match best {
+                None => sh.violation("interior_point.highest_dimension|GeometryCollection(mixed dimensions)|-", det(&format!("a point of a member of dimension {top}"), format!("{:?} lies on no member of that dimension", c))),
+                Some(Loc::B) if top == 2 => sh.violation("interior_point.strictly_inside|GeometryCollection(mixed dimensions)|-", det("a point strictly inside an areal member", format!("{:?} is on the boundary of the areal members", c))),
+                _ => sh.class(&format!("interior:mixed_collection:top_dim{top}")),
+            }
+        }
+    }
+}
+
 /// A MultiPolygon (or a collection holding it) whose members include polygons WITHOUT area (a flat ring [p, q, p], a
 /// ring that is one coordinate) at any position, the first included, next to members that have area: g has interior
 /// of its own dimension, so the answer has to lie strictly inside one of the members that have area.
@@ -493,6 +537,14 @@ pub fn run(ctx: &Ctx, sh: &mut Shard) {
             },
             _ => gen_any(&mut r, g),
         };
+        // one case in 12: a collection of members of different dimensions
+        if k % 12 == 1 {
+            let n = r.range(2, 4);
+            let members: Vec<IG> = (0..n).map(|_| gen_any(&mut r, g).translate(r.range(-g, g), r.range(-g, g))).filter(|m| !matches!(m, IG::Collection(_))).collect();
+            if members.iter().any(|m| !m.is_empty()) && members.iter().map(|m| m.dim()).filter(|d| *d >= 0).collect::<std::collections::BTreeSet<_>>().len() >= 2 {
+                check_interior_mixed(sh, &members, &lat, false);
+            }
+        }
         // one case in 50: a geometry of realistic size or with a node of high degree
         let a = if k % 50 == 17 { let (x, cls) = gen_large(&mut r); sh.class(cls); x } else { a };
         if a.n_segments() > 700 {
@@ -541,6 +593,11 @@ pub fn replay(v: &Value, sh: &mut Shard) {
     if v["kind"].as_str() == Some("sweep") {
         let segs: Vec<(IP, IP)> = v["segs"].as_array().unwrap().iter().map(|s| ((s[0][0].as_i64().unwrap(), s[0][1].as_i64().unwrap()), (s[1][0].as_i64().unwrap(), s[1][1].as_i64().unwrap()))).collect();
         check_sweep(sh, &segs, &lat, true);
+        return;
+    }
+    if v["kind"].as_str() == Some("mixed_collection") {
+        let members: Vec<IG> = v["members"].as_array().unwrap().iter().map(|m| IG::from_json(m).unwrap()).collect();
+        check_interior_mixed(sh, &members, &lat, true);
         return;
     }
     let a = IG::from_json(&v["a"]).expect("a");
